@@ -121,14 +121,19 @@ func xmlUnmarshalUnverified(data []byte, obj interface{}) error {
 }
 
 func (sp *SAMLServiceProvider) getDecryptCert() (*tls.Certificate, error) {
-	if sp.SPKeyStore == nil {
+	keyStore := sp.SPKeyStore
+	if ks := sp.spKeyStoreOverride; ks != nil {
+		// A key set via SetSPKeyStore is used instead of the deprecated SPKeyStore field
+		keyStore = dsig.TLSCertKeyStore(tls.Certificate{Certificate: [][]byte{ks.Cert}, PrivateKey: ks.Signer})
+	}
+	if keyStore == nil {
 		return nil, fmt.Errorf("no decryption certs available")
 	}
 
 	//This is the tls.Certificate we'll use to decrypt any encrypted assertions
 	var decryptCert tls.Certificate
 
-	switch crt := sp.SPKeyStore.(type) {
+	switch crt := keyStore.(type) {
 	case dsig.TLSCertKeyStore:
 		// Get the tls.Certificate directly if possible
 		decryptCert = tls.Certificate(crt)
@@ -136,7 +141,7 @@ func (sp *SAMLServiceProvider) getDecryptCert() (*tls.Certificate, error) {
 	default:
 
 		//Otherwise, construct one from the results of GetKeyPair
-		pk, cert, err := sp.SPKeyStore.GetKeyPair()
+		pk, cert, err := keyStore.GetKeyPair()
 		if err != nil {
 			return nil, fmt.Errorf("error getting keypair: %v", err)
 		}
